@@ -516,6 +516,12 @@ fn call_contexts(src: &mut Src, st: &mut Stats, _env: &Env) -> CaseResult {
     let ctx = *src.pick(&contexts);
     let call = *src.pick(&calls);
     let text = ctx.replace("{C}", call);
+    check_call_text("call-contexts", &text, src, st)
+}
+
+/// `text` calls the logging identity function `rec(x)`; see `call_contexts`.
+pub fn check_call_text(sub: &'static str, text: &str, src: &mut Src, st: &mut Stats) -> CaseResult {
+    let text = text.to_string();
     let model_text = text.replace("rec(", "not_null(");
     let count: Arc<Mutex<usize>> = Arc::new(Mutex::new(0));
     let mut rt = Runtime::new();
@@ -530,8 +536,8 @@ fn call_contexts(src: &mut Src, st: &mut Stats, _env: &Env) -> CaseResult {
     );
     st.eval();
     let case = json!({"expression": text, "model_expression": model_text, "document": DOC});
-    let compiled = rt.compile(&text).map_err(|e| Failure::new("call-contexts", "harness-compile", e.to_string(), case.clone()))?;
-    let got = catch(std::panic::AssertUnwindSafe(|| compiled.search(Variable::from_json(DOC).unwrap()))).map_err(|p| Failure::new("call-contexts", "panic", p, case.clone()))?;
+    let compiled = rt.compile(&text).map_err(|e| Failure::new(sub, "harness-compile", e.to_string(), case.clone()))?;
+    let got = catch(std::panic::AssertUnwindSafe(|| compiled.search(Variable::from_json(DOC).unwrap()))).map_err(|p| Failure::new(sub, "panic", p, case.clone()))?;
     let calls_seen = *count.lock().unwrap();
     let want = crate::imp::search_text(&model_text, DOC);
     match (&want, &got) {
@@ -563,7 +569,7 @@ fn call_contexts(src: &mut Src, st: &mut Stats, _env: &Env) -> CaseResult {
         let ast = crate::shape::unstrip(&shape, &mut next);
         *count.lock().unwrap() = 0;
         let hand = jmespath::Expression::new("", ast, &rt);
-        let got2 = catch(std::panic::AssertUnwindSafe(|| hand.search(Variable::from_json(DOC).unwrap()))).map_err(|p| Failure::new("call-contexts", "panic", p, case.clone()))?;
+        let got2 = catch(std::panic::AssertUnwindSafe(|| hand.search(Variable::from_json(DOC).unwrap()))).map_err(|p| Failure::new(sub, "panic", p, case.clone()))?;
         let calls2 = *count.lock().unwrap();
         let same = match (&got, &got2) {
             (Ok(a), Ok(b2)) => var_to_j(a).exact_eq(&var_to_j(b2)),
@@ -586,7 +592,7 @@ fn call_contexts(src: &mut Src, st: &mut Stats, _env: &Env) -> CaseResult {
         if refeval::eval(&tree, &doc, &mut cx).is_ok() && cx.ambiguous.is_empty() {
             let want_calls = cx.calls.iter().filter(|c| **c == "not_null").count();
             if want_calls != calls_seen {
-                return Err(Failure::new("call-contexts", "custom-function-invocation-count", format!("{} invoked the function {} times, the rules say {}", text, calls_seen, want_calls), case));
+                return Err(Failure::new(sub, "custom-function-invocation-count", format!("{} invoked the function {} times, the rules say {}", text, calls_seen, want_calls), case));
             }
             st.class(if want_calls == 0 { "context:not-evaluated" } else { "context:evaluated" });
         }
